@@ -20,9 +20,17 @@ LONG_SHAPES = ("one31", "one60", "one61", "one75", "multi", "multi2", "nested", 
 BAD_SHAPES = ("unbal", "half", "closers", "enc_latin1", "enc_utf16", "enc_bom", "enc_crlf")
 
 
+# other file names Pygments maps to the same seven lexers
+ALT_EXT = {"py": [".pyw", ".pyi", ".bzl"], "js": [".mjs", ".cjs", ".jsm"], "c": [".h", ".h", ".idc"],
+           "cpp": [".hpp", ".cc", ".hh", ".cxx", ".C", ".H", ".ipp"], "ts": [], "java": [], "cs": []}
+
+
 def lang_of_path(path: str):
     for l, e in EXT.items():
         if path.endswith(e):
+            return l
+    for l, exts in ALT_EXT.items():
+        if any(path.endswith(e) for e in exts):
             return l
     return None
 
@@ -48,7 +56,10 @@ def new_path(rng, lang=None, dirs=DIRS):
     lang = lang or rng.choice(LANGS)
     d = rng.choice(dirs)
     stem = rng.choice(STEMS)
-    return (d + "/" if d else "") + stem + EXT[lang]
+    ext = EXT[lang]
+    if ALT_EXT.get(lang) and rng.random() < 0.2:
+        ext = rng.choice(ALT_EXT[lang])
+    return (d + "/" if d else "") + stem + ext
 
 
 def nonce(rng):
